@@ -2771,7 +2771,16 @@ func n9LowerBound(fn *ssa.Function, at ssa.Instruction, coll ssa.Value) int64 {
 		return false
 	}
 	apply := func(lb int64, cond ssa.Value, branch bool) int64 {
-		return n9ApplyCond(lb, cond, branch, coll, 0)
+		lb = n9ApplyCond(lb, cond, branch, coll, 0)
+		// the condition may be a named boolean (hasPrefix := len(s) > 2 && s[0] == '0'): take it apart
+		for _, f := range expandFact(cond, branch) {
+			if f.Cond != cond {
+				if v := n9ApplyCond(lb, f.Cond, f.Truth, coll, 0); v > lb {
+					lb = v
+				}
+			}
+		}
+		return lb
 	}
 	in := map[*ssa.BasicBlock]int64{}
 	out := map[*ssa.BasicBlock]int64{}
